@@ -513,12 +513,13 @@ def run_match_range(prog, rep):
 def run_pos_pass(prog, rep, floor=8):
     """positionToIndex overloads hand the position they were given to the overload they delegate to, unchanged"""
     from ..sem import split_sig
-    rule = rep.rule('R-POSPASS', 'a positionToIndex overload that delegates to another overload passes its own position (scalar or vector) unchanged: no rounding, truncation or rescaling on the way', floor=floor)
+    rule = rep.rule('R-POSPASS', 'a positionToIndex overload that delegates to another overload passes its own position and its own unit (scalar or vector) unchanged: no rounding, truncation, rescaling or substitution on the way', floor=floor)
     n = 0
     for f in sorted(prog.funcs.values(), key=lambda f: (f.file, f.line)):
         if f.body is None or not f.q.startswith('nix::util::positionToIndex'):
             continue
-        pp = [p for p in f.params if p['type'].replace('const ', '').replace(' &', '').strip() in ('double', 'std::vector<double>')]
+        PASS_T = ('double', 'std::vector<double>', 'std::string', 'std::vector<std::string>', 'std::vector<basic_string<char>>', 'string', 'vector<string>')
+        pp = [p for p in f.params if p['type'].replace('const ', '').replace(' &', '').strip() in PASS_T]
         if not pp:
             continue
         own = {('v', p['lid'], p['name']): p for p in pp}
@@ -529,12 +530,14 @@ def run_pos_pass(prog, rep, floor=8):
             args = real_args(c)
             for j, t in enumerate(sig):
                 tt = t.replace('const ', '').replace(' &', '').strip()
-                if tt not in ('double', 'std::vector<double>') or j >= len(args) or args[j] is None:
+                if tt not in PASS_T or j >= len(args) or args[j] is None:
                     continue
                 a = unwrap(args[j])
                 refs = [x for x in a.walk() if x.k == 'ref' and ('v', x.decl.get('lid'), x.decl.get('name')) in own]
-                if not refs:
+                if not refs and tt in ('double', 'std::vector<double>'):
                     continue        # built from other data (element of a vector, computed end): other rules
+                if not refs and not [p for p in pp if 'string' in p['type']]:
+                    continue        # the caller has no unit of its own to pass on
                 n += 1
                 k = len([x for x in f.calls() if x.id < c.id and x.callee.get('name') == 'positionToIndex'])
                 key = '%s(%s)|call%d|arg%d' % (f.q, ','.join(p['type'] for p in f.params)[:90], k, j)
@@ -542,7 +545,7 @@ def run_pos_pass(prog, rep, floor=8):
                     rule.ok(key, rep.where(c), f.label(), 'passes %s unchanged' % a.src(30))
                 elif a.k in ('initlist', 'construct') and len([x for x in a.c if x is not None]) == 1 and term(unwrap([x for x in a.c if x is not None][0])) in own:
                     rule.ok(key, rep.where(c), f.label(), 'wraps %s unchanged' % a.src(30))
-                elif ((a.k == 'call' and a.get('op') == '[]') or a.k == 'subscript') and term(unwrap(a.c[0])) in own and tt == 'double':
+                elif ((a.k == 'call' and a.get('op') == '[]') or a.k == 'subscript') and term(unwrap(a.c[0])) in own and tt in ('double', 'std::string', 'string'):
                     rule.ok(key, rep.where(c), f.label(), 'passes the element %s unchanged' % a.src(30))
                 else:
                     rule.bad(key, rep.where(c), f.label(), 'delegates with %s instead of the position it was given: positions that differ from the transformed value select other elements' % a.src(50))
